@@ -261,7 +261,8 @@ pub fn lanes(x: &[f64], impulses: bool) -> Vec<Lane> {
     });
     for (p, name) in [(1u32, "x"), (2, "x^2"), (3, "x^3")] {
         // x^p is exact in f64 when x has at most 53/p significant bits
-        if !in_window || x.iter().any(|&v| crate::rat::sig_bits(v) * p > 50) {
+        // (and its exponent must leave the powers inside the i128 window of the exact arithmetic)
+        if !in_window || x.iter().any(|&v| crate::rat::sig_bits(v) * p > 50 || (v != 0.0 && v.abs().log2().abs() * p as f64 > 100.0)) {
             continue;
         }
         let r: Vec<Rat> = xr.iter().map(|x| x.pow(p)).collect();
